@@ -1,7 +1,15 @@
 (* C05 -- Nodes are evaluated on demand, at most once, and their values never change.
-   Nothing but statements closed by `exact <lemma>` and Print Assumptions. *)
-From Coq Require Import List NArith Bool Arith.
-From PV Require Import Graph.OpFamily Graph.Tape Graph.Lazy Graph.Backward Graph.LazyProofs.
+   Nothing but statements closed by `exact <lemma>` and Print Assumptions.
+   Model: Graph/Tape.v (state, add_operator), Graph/Lazy.v (forward), Graph/Backward.v (backward,
+   parameter store, histories over several graphs); operators are ABSTRACT (OpFamily), the
+   theorems hold for every operator family satisfying the contract FamOK (forward assigns all
+   its outputs, forward_shape yields one shape per output, the Parameter operator has no
+   arguments).  winv = invariant of every world reachable from the empty one
+   (C05_reachable_invariant). *)
+From Coq Require Import List NArith ZArith Bool Arith.
+From PV Require Import Graph.OpFamily Graph.Tape Graph.Lazy Graph.Backward Graph.TapeLemmas
+  Graph.LazyProofs Graph.BackwardProofs Graph.HistoryProofs Graph.FrameProofs Graph.MoreProofs
+  Graph.Theorems Graph.Example.
 Import ListNotations.
 
 (* Creating a node computes nothing: add_operator appends one operator whose value and
@@ -16,3 +24,103 @@ Theorem C05_add_computes_nothing {Op Sh V} (F : OpFamily Op Sh V) me (g g' : @gs
                            map s_shape (o_rets oi) = rs.
 Proof. exact (add_op_spec F me g g' o args k). Qed.
 Print Assumptions C05_add_computes_nothing.
+
+(* One forward(n) never aborts (fuel = oid+1 suffices) and evaluates EXACTLY the not yet
+   evaluated non-parameter ancestors of n, each once: the log grows by a duplicate-free list
+   `new` with  k in new <-> ancestor /\ not a parameter /\ unevaluated;  afterwards all of them
+   hold values; every operator outside `new` is untouched (fexact: also no gradient, no
+   parameter value/gradient changes; the streams advance by exactly the draws of `new`). *)
+Theorem C05_forward_evaluates_exactly {Op Sh V} (F : OpFamily Op Sh V) (HF : FamOK F)
+  (g : @gstate Op Sh V) (e : @env V) a : ginv F (g_ops g) -> get_slot g a <> None ->
+  exists v g' e', forward F g e a = Some (v, g', e') /\
+    sv (g_ops g') = sv (g_ops g) /\ g_blog g' = g_blog g /\ e_pval e' = e_pval e /\ e_pgrad e' = e_pgrad e /\
+    mono (g_ops g) (g_ops g') /\ ginv F (g_ops g') /\ aread F (g_ops g') e a = Some v /\
+    exists new, g_log g' = g_log g ++ new /\ NoDup new /\
+      (forall k, In k new <-> anc (g_ops g) k (fst a) /\ inner_of F (g_ops g) k = None /\ unev (g_ops g) k) /\
+      (forall k, In k new -> computed F (g_ops g') e k) /\
+      (forall k, anc (g_ops g) k (fst a) -> inner_of F (g_ops g) k = None -> evald (g_ops g') k) /\
+      (forall k, ~ In k new -> nth_error (g_ops g') k = nth_error (g_ops g) k) /\
+      (forall d, e_pos e' d = (e_pos e d + draws F (g_ops g) d new)%N).
+Proof. exact (T_forward_evaluates_exactly F HF g e a). Qed.
+Print Assumptions C05_forward_evaluates_exactly.
+
+(* For EVERY history of new-graph / add / forward / backward / optimizer update / reset /
+   gradient write / direct draw: a value slot that is Some v stays Some v for the life of the
+   graph.  Parameters are the stated exception: their slots are never filled (ginv), they are
+   read through the live store (aread / bread). *)
+Theorem C05_value_immutable {Op Sh V} (F : OpFamily Op Sh V) (VO : ValOps Sh V) (HF : FamOK F)
+  (w : @world Op Sh V) cs gi g a s v : winv F w ->
+  nth_error (w_graphs w) gi = Some g -> get_slot g a = Some s -> s_val s = Some v ->
+  exists g' s', nth_error (w_graphs (run_all F VO w cs)) gi = Some g' /\ get_slot g' a = Some s' /\ s_val s' = Some v.
+Proof. exact (T_value_immutable F VO HF w cs gi g a s v). Qed.
+Print Assumptions C05_value_immutable.
+
+(* For EVERY history the forward-call log of every graph is duplicate-free (each operator's
+   forward runs at most once in the life of the graph), everything logged holds values, and no
+   node gradient survives an API call. *)
+Theorem C05_evaluated_at_most_once {Op Sh V} (F : OpFamily Op Sh V) (VO : ValOps Sh V) (HF : FamOK F)
+  (w : @world Op Sh V) cs gi g' : winv F w ->
+  nth_error (w_graphs (run_all F VO w cs)) gi = Some g' ->
+  NoDup (g_log g') /\ (forall k, In k (g_log g') -> evald (g_ops g') k) /\ gclean (g_ops g').
+Proof. exact (T_evaluated_at_most_once F VO HF w cs gi g'). Qed.
+Print Assumptions C05_evaluated_at_most_once.
+
+Theorem C05_reachable_invariant {Op Sh V} (F : OpFamily Op Sh V) (VO : ValOps Sh V) (HF : FamOK F) (e : @env V) cs :
+  winv F (run_all F VO {| w_graphs := []; w_env := e |} cs) /\ wshape F (run_all F VO {| w_graphs := []; w_env := e |} cs).
+Proof. exact (T_reachable_invariant F VO HF e cs). Qed.
+Print Assumptions C05_reachable_invariant.
+
+(* Two orders of forcing nodes from the same state: every operator without a random source
+   among its ancestors that both orders evaluated holds the same values (operators other than
+   Random* are functions of their arguments: f_fw at stream position 0). *)
+Theorem C05_order_independent {Op Sh V} (F : OpFamily Op Sh V) (HF : FamOK F)
+  (g : @gstate Op Sh V) e l1 l2 g1 e1 g2 e2 : ginv F (g_ops g) -> allcomp F (g_ops g) e ->
+  fwds F g e l1 = Some (g1, e1) -> fwds F g e l2 = Some (g2, e2) ->
+  forall k oi1 oi2, nth_error (g_ops g1) k = Some oi1 -> nth_error (g_ops g2) k = Some oi2 ->
+    evald (g_ops g1) k -> evald (g_ops g2) k -> det F (g_ops g) k ->
+    map s_val (o_rets oi1) = map s_val (o_rets oi2).
+Proof. exact (T_order_independent F HF g e l1 l2 g1 e1 g2 e2). Qed.
+Print Assumptions C05_order_independent.
+
+(* Every consumer of a node, in forward and in backward, reads the ONE memoised value slot
+   (for a random node: the one sample): forward applies f_fw to [aread], backward hands [bread]
+   to the operator's backward, and both are the value slot once it is filled.  With
+   C05_value_immutable (the slot never changes) and C05_evaluated_at_most_once (the producer
+   never runs again) all consumers of a random node see one single sample. *)
+Theorem C05_random_single_sample {Op Sh V} (F : OpFamily Op Sh V) (VO : ValOps Sh V) (HF : FamOK F) :
+  (forall (g : @gstate Op Sh V) e a v g' e', ginv F (g_ops g) -> forward F g e a = Some (v, g', e') ->
+     exists new, g_log g' = g_log g ++ new /\ forall k, In k new -> computed F (g_ops g') e k) /\
+  (forall k (ops : list (@opinfo Op Sh V)) e ops' e', wf_ops ops -> bstep F VO k ops e = Some (ops', e', true) ->
+     exists cur incs, nth_error ops k = Some cur /\ step_incs F VO k ops e cur incs) /\
+  (forall (ops : list (@opinfo Op Sh V)) e a oi s v, nth_error ops (fst a) = Some oi -> nth_error (o_rets oi) (snd a) = Some s ->
+     s_val s = Some v -> bread F ops e a = Some v /\ (f_inner F (o_op oi) = None -> aread F ops e a = Some v)).
+Proof. exact (T_random_single_sample F VO HF). Qed.
+Print Assumptions C05_random_single_sample.
+
+(* For EVERY history: position of device d = initial position + the draws of the random
+   operators in the forward logs (evaluated ones, each once) + the direct draws of the history.
+   Unevaluated random nodes consume nothing. *)
+Theorem C05_unevaluated_random_consumes_nothing {Op Sh V} (F : OpFamily Op Sh V) (VO : ValOps Sh V) (HF : FamOK F)
+  cs (w : @world Op Sh V) d : winv F w ->
+  (e_pos (w_env (run_all F VO w cs)) d + tot F d (w_graphs w) =
+   e_pos (w_env w) d + tot F d (w_graphs (run_all F VO w cs)) + cdraws d cs)%N.
+Proof. exact (T_stream_account F VO HF cs w d). Qed.
+Print Assumptions C05_unevaluated_random_consumes_nothing.
+
+(* non-vacuity: the example family meets the contract; a 12-step history (two random nodes, one
+   never requested; stop_gradient branch; backward before and after a forward) runs without
+   abort: log of graph 0 = [2;3;4;5;7] (node 6, random, never evaluated), stream position 2 =
+   size of the one evaluated random node, values as computed. *)
+Example C05_nonvacuous :
+  FamOK EF /\
+  let w := run_all EF EV ex_w0 ex_cmds in
+  winv EF w /\
+  map (fun g => g_log g) (w_graphs w) = [[2; 3; 4; 5; 7]] /\ e_pos (w_env w) 0 = 2%N /\
+  (exists g, nth_error (w_graphs w) 0 = Some g /\
+     map (fun oi => map s_val (o_rets oi)) (g_ops g) =
+       [[None]; [None]; [Some [0; 1]%Z]; [Some [0; 3]%Z]; [Some [5; 7]%Z]; [Some [5; 10]%Z]; [None]; [Some [25; 100]%Z]]).
+Proof.
+  assert (H : FamOK EF) by (split; [exact EF_fw_len|split; [exact EF_sh_len|exact EF_inner_argn]]).
+  split; [exact H|]. split; [exact (proj1 (T_reachable_invariant EF EV H ex_env ex_cmds))|].
+  vm_compute. split; [reflexivity|]. split; [reflexivity|]. eexists. split; reflexivity.
+Qed.
